@@ -5,6 +5,7 @@ reference call log is made the failing one in turn.  mode 'plan': explicit fault
 from __future__ import annotations
 
 import asyncio
+import collections
 import copy
 import os
 import warnings
@@ -46,12 +47,13 @@ ASSUMPTIONS = [
     "ErrorSnapshot clauses are checked for in-process execution only (call, run, sequential map, thread-mode executor)",
 ]
 
-EXEC_KINDS = ["call", "run", "map-seq", "map-thread", "map-process", "map-pool", "async-thread", "async-process"]
+EXEC_KINDS = ["call", "run", "map-seq", "map-thread", "map-process", "map-pool", "async-thread", "async-process", "map-plain"]
 
 
 def gen_case(tape, tier):
     kind = tape.pick(EXEC_KINDS, "exec-kind")
-    if kind in ("call", "run"):
+    if kind in ("call", "run", "map-plain"):
+        # (map-plain: Pipeline.map with default arguments on a pipeline without any MapSpec - a chain like that runs in-process)
         w = gen_dag(tape)
         output = tape.pick(all_outputs(w), "output")
     else:
@@ -156,6 +158,9 @@ def _note_ok(e, fn, call_args):
 
 
 # ------------------------------------------------------------------ one plan
+_ASYNC = [False]
+
+
 def run_plan(w, cfg, faults, ref, tape, gens, then=None):
     viol = []
     info = {"probes": {}, "fired": [], "yields": 0, "digest": None}
@@ -167,6 +172,13 @@ def run_plan(w, cfg, faults, ref, tape, gens, then=None):
 
     kind = cfg["exec"]
     inproc = kind in ("call", "run", "map-seq", "map-thread", "async-thread")
+    if kind == "map-plain":
+        # map() with default arguments runs a pipeline without MapSpec in-process exactly when it is a plain chain (one
+        # function per generation); otherwise it legitimately uses its default process pool
+        per_gen = collections.Counter(gens.values())
+        inproc = all(n == 1 for n in per_gen.values())
+        if inproc:
+            info["probes"]["plain_chain_mapped_with_defaults"] = 1
     pub = {fd["name"]: fd.get("public_name") or fd["name"] for fd in w["functions"]}  # the name pipefunc knows a function by
     with C.Scratch() as root, warnings.catch_warnings():
         warnings.simplefilter("ignore")
@@ -201,6 +213,9 @@ def run_plan(w, cfg, faults, ref, tape, gens, then=None):
                         return p.run(cfg["output"], full_output=True, kwargs=_kwargs(w, cfg))
                     inputs = build_inputs(w)
                     kw = dict(run_folder=folder, storage=C.storage_arg(cfg["storage"]), **map_kwargs(w))
+                    if kind == "map-plain":
+                        C.install_default_pool(sim, {"workers": 2, "start": "fifo"})  # (should pipefunc decide to use a pool)
+                        return p.map(inputs, **kw)
                     if kind == "map-seq":
                         return p.map(inputs, parallel=False, **kw)
                     if kind == "map-pool":
@@ -547,6 +562,11 @@ def _resolve_faults(faults, ref):
     out = []
     for f in faults:
         g = dict(f)
+        if g.get("exc") == "Problems" and not _ASYNC[0]:
+            # concurrent.futures.Future.result() itself tests `if self._exception:`: with a falsy exception object a real
+            # pool returns None instead of raising, before pipefunc sees anything.  Only the async path, which reads
+            # task.exception() itself, is pipefunc's to get right.
+            g["exc"] = "ValueError"
         g["args_obj"] = None
         if f.get("args") is not None or f.get("ref_index") is not None:
             per = [c for c in ref.calls if c.fn == f["fn"]]
@@ -561,6 +581,7 @@ def run_case(case, exec_seed=None, exec_tape=None):
     C.begin_case()
     w, cfg = case["workload"], case["config"]
     out = {"violations": [], "probes": {}, "nontrivial": [], "evaluations": 0, "yields": 0, "sim_time": 0.0}
+    _ASYNC[0] = cfg["exec"].startswith("async")
     ref = _reference(w, cfg)
     if ref.error is not None:
         out["discarded"] = True
